@@ -140,7 +140,7 @@ def cases(ctx):
                 spec.put(f, 13, 3, cl)
                 yield from emit(f, "uf11")
     # address recovery through the Annex 10 uplink encoder
-    addrs = [0, 1, 0xFFFFFF, 0x800000, 0x000001, 0xABCDEF, 0x123456] + [rng.getrandbits(24) for _ in range(ctx.n(3000, 100000))]
+    addrs = [0, 1, 0xFFFFFF, 0x800000, 0x000001, 0xABCDEF, 0x123456] + [rng.getrandbits(24) for _ in range(ctx.n(3000, 30000))]
     for a in addrs:
         for n in (56, 112):
             d = spec.background(rng, n - 24)
